@@ -46,6 +46,15 @@ Definition num_value (x : num) : Q := (inject_Z (Z.of_N (fst x)) + frac_value (s
 Definition print_num (x : num) : str :=
   print_nat (fst x) ++ match snd x with [] => [] | ds => 46 :: map (fun d => 48 + d) ds end.
 
+(* the value of any decimal text of digits and at most one point: `007`, `1.50`, `.5`, `5.` *)
+Definition digits_value (ds : str) : N := fold_left (fun a c => a * 10 + (c - 48)) ds 0.
+Definition all_digits (ds : str) : bool := forallb (fun c => (48 <=? c) && (c <=? 57)) ds.
+Definition decimal (s : str) (v : Q) : Prop :=
+  exists ip fp,
+    ((s = ip /\ fp = []) \/ s = ip ++ 46 :: fp)
+    /\ all_digits ip = true /\ all_digits fp = true /\ ip ++ fp <> []
+    /\ (v == inject_Z (Z.of_N (digits_value ip)) + frac_value (map (fun c => (c - 48)%N) fp))%Q.
+
 (* ------------------------------------------------------------ durations *)
 
 (* compact form: `1h`, `30m`, `1h30m` *)
@@ -142,6 +151,29 @@ Definition hm_spelled (x : hm) (s : str) : Prop :=
   | HandM h m => exists a b, numeral a h /\ numeral b m /\ s = a ++ [104] ++ b ++ [109]
   end.
 
+(* ------------------------------------------------------------ words and number-unit groups *)
+
+Definition num_char (c : N) : bool := ((48 <=? c) && (c <=? 57)) || (c =? 46).
+
+(* the white-space separated words of a string *)
+Inductive ws_words : str -> list str -> Prop :=
+| ww_nil b : blank b = true -> ws_words b []
+| ww_cons b w rest l :
+    blank b = true -> w <> [] -> forallb (fun c => negb (uni_ws c)) w = true ->
+    match rest with [] => True | c :: _ => uni_ws c = true end ->
+    ws_words rest l -> ws_words (b ++ w ++ rest) (w :: l).
+
+(* words read as number-unit pairs: the unit attached (`2h`: the number is the longest prefix of
+   digits and points) or in the next word (`2 h`) *)
+Inductive grouped : list str -> list (str * str) -> Prop :=
+| g_nil : grouped [] []
+| g_attached num x unit rest l :
+    forallb num_char num = true -> num_char x = false -> grouped rest l ->
+    grouped ((num ++ x :: unit) :: rest) ((num, x :: unit) :: l)
+| g_separate num unit rest l :
+    forallb num_char num = true -> grouped rest l ->
+    grouped (num :: unit :: rest) ((num, unit) :: l).
+
 (* ------------------------------------------------------------ lists written in one string *)
 
 (* pieces joined by a separator character: `2|4|8`, `vegan, easy` *)
@@ -181,6 +213,13 @@ Definition print_serving (pad1 : str) (n : N) (text pad2 : str) : str :=
 Definition servings (ns : list N) (result : option (list N)) : Prop :=
   (NoDup ns /\ result = Some ns) \/ (~ NoDup ns /\ result = None).
 
+(* any entry with a leading number: digits (leading zeros allowed), then nothing or text that does
+   not continue the word; in a `|`-string the entry may start with blanks *)
+Definition leading (e : str) (n : N) : Prop :=
+  exists z rest, e = repeat 48 z ++ print_nat n ++ rest /\ n < 4294967296 /\ text_ok rest = true.
+Definition leading_padded (e : str) (n : N) : Prop :=
+  exists pad e', e = pad ++ e' /\ blank pad = true /\ leading e' n.
+
 (* ------------------------------------------------------------ locale *)
 
 Definition ascii_letter (c : N) : bool :=
@@ -195,16 +234,42 @@ Inductive locale : str -> str -> option str -> Prop :=
 
 (* ------------------------------------------------------------ name and URL *)
 
-(* `scheme://host` or `scheme://host/rest`: the scheme alphabetic (and so without `://`
-   inside), the host not empty, without `/` and without white space *)
+(* `scheme://host` or `scheme://host/...`: the scheme alphabetic (it may be empty, `://x` is
+   accepted) and without a colon, the host not empty, without `/` and without white space *)
 Definition valid_url (alpha : N -> bool) (u : str) : Prop :=
   exists scheme host rest,
     u = scheme ++ [58; 47; 47] ++ host ++ rest
-    /\ forallb alpha scheme = true /\ alpha 58 = false
+    /\ forallb alpha scheme = true /\ ~ In 58 scheme
     /\ host <> [] /\ ~ In 47 host /\ forallb (fun c => negb (uni_ws c)) host = true
     /\ (rest = [] \/ exists r, rest = 47 :: r).
 
-(* the documented forms `Name <Url>` (also `<Url>`: empty name) followed by ASCII blanks *)
+(* t is s without the white space at both ends *)
+Definition trimmed (s t : str) : Prop :=
+  exists a b, s = a ++ t ++ b /\ blank a = true /\ blank b = true
+              /\ match t with [] => True | c :: _ => uni_ws c = false end
+              /\ match rev t with [] => True | c :: _ => uni_ws c = false end.
+(* a field of the result: the trimmed text, absent when nothing is left *)
+Definition cleaned (s : str) (o : option str) : Prop :=
+  exists t, trimmed s t /\ o = match t with [] => None | _ => Some t end.
+
+(* `Name <Url>` (also `<Url>`: empty name) followed by ASCII blanks *)
 Definition print_bracket (name url pad : str) : str := name ++ [60] ++ url ++ [62] ++ pad.
+Definition no_angle (s : str) : Prop := ~ In 60 s /\ ~ In 62 s.
+Definition bracket_form (alpha : N -> bool) (s name url : str) : Prop :=
+  exists pad u, s = print_bracket name url pad /\ ~ In 60 name /\ no_angle url
+                /\ forallb ascii_ws pad = true /\ trimmed url u /\ valid_url alpha u.
+
+(* the documented reading: `Name <Url>` / `<Url>` with a valid URL give name and URL; any other
+   string (no brackets, or an invalid URL in them) is the URL when it is a valid one, else it
+   is the name, as a whole *)
+Inductive name_url (alpha : N -> bool) (s : str) : option str -> option str -> Prop :=
+| nu_both name url n u :
+    bracket_form alpha s name url -> cleaned name n -> cleaned url u -> name_url alpha s n u
+| nu_url u :
+    (forall name url, ~ bracket_form alpha s name url) -> valid_url alpha s -> cleaned s u ->
+    name_url alpha s None u
+| nu_name n :
+    (forall name url, ~ bracket_form alpha s name url) -> ~ valid_url alpha s -> cleaned s n ->
+    name_url alpha s n None.
 
 End Doc.
